@@ -233,8 +233,9 @@ var $internalize = (v, t, recv, seen, makeWrapper) => {
         case $kindUint64:
             return new t(0, v);
         case $kindFloat32:
+            return $fround($parseFloat(v));
         case $kindFloat64:
-            return parseFloat(v);
+            return $parseFloat(v); /* parseFloat(-0) is +0: numbers are taken as they are */
         case $kindArray:
             if (v === null || v === undefined) {
                 $throwRuntimeError("cannot internalize "+v+" as a "+t.string);
@@ -310,7 +311,7 @@ var $internalize = (v, t, recv, seen, makeWrapper) => {
                     var funcType = $funcType([$sliceType($emptyInterface)], [$jsObjectPtr], true);
                     return new funcType($internalize(v, funcType, makeWrapper));
                 case Number:
-                    return new $Float64(parseFloat(v));
+                    return new $Float64($parseFloat(v));
                 case String:
                     return new $String($internalize(v, $String, makeWrapper));
                 default:
